@@ -228,6 +228,11 @@ OneWrong(u) == LET g == GoodList(u)
                    j == Rnd(DOMAIN g)
                    w == KnownIds \ {g[j].e}
                IN [i \in DOMAIN g |-> IF i = j /\ w # {} THEN [n |-> g[i].n, e |-> Rnd(w)] ELSE g[i]]
+\* the natural list with one entry given twice in a row (the part numbers of a list are
+\* STRICTLY ascending: a repeated number is a list out of order)
+RepeatList(u) == LET g == GoodList(u)
+                     j == Rnd(DOMAIN g)
+                 IN SubSeq(g, 1, j) \o SubSeq(g, j, Len(g))
 \* a subset, ascending
 SubList(u) == LET S == Rnd(SUBSET PartNums)
                   s == SelectSeq(<<1, 2, 3>>, LAMBDA n : n \in S)
@@ -266,6 +271,7 @@ OpSim ==
     \/ \E u \in {RUp} : \E k \in {RKey(u)} : HaveParts(u) /\ (Cardinality(Present(u)) >= 2 \/ Rnd(1 .. 3) = 1) /\ Complete(TheBucket, k, u, GoodList(u))
     \* the natural list with one wrong ETag / in descending order
     \/ \E u \in {RUp} : \E k \in {RKey(u)} : HaveParts(u) /\ \E lst \in {OneWrong(u)} : Complete(TheBucket, k, u, lst)
+    \/ \E u \in {RUp} : \E k \in {RKey(u)} : HaveParts(u) /\ \E lst \in {RepeatList(u)} : Complete(TheBucket, k, u, lst)
     \/ \E u \in {RUp} : \E k \in {RKey(u)} : HaveParts(u) /\ Cardinality(Present(u)) >= 2 /\ Rnd(1 .. 2) = 1 /\ Complete(TheBucket, k, u, Reverse(GoodList(u)))
     \/ \E u \in {RUp} : \E k \in {RKey(u)} : HaveParts(u) /\ Cardinality(Present(u)) >= 2 /\ Complete(TheBucket, k, u, GoodList(u))
     \/ \E u \in {RUp} : \E k \in {RKey(u)} : HaveParts(u) /\ Cardinality(Present(u)) = 3 /\ Complete(TheBucket, k, u, GoodList(u))
